@@ -1,10 +1,25 @@
-(* C19 - arguments merged by the equivalence reduction are indistinguishable.
-   Statements only; every proof is [exact] of a lemma of Proofs/EquivBase.v / Proofs/EquivProofs.v.
+(* C19 - arguments merged by the equivalence reduction are indistinguishable, and the content of
+   the reduced framework.
+   Statements only; every proof is [exact] of a lemma of Proofs/EquivBase.v / Proofs/EquivProofs.v /
+   Proofs/EquivReduce.v.
    The model is Model/Equiv.v (src/utils/equivalency_computer.rs); [compact_af F n] says that F has
    the arguments 0..n-1 and that every attack joins two of them (duplicates and self-attacks
-   allowed), which is what the readers produce. *)
+   allowed), which is what the readers produce.
+   The theorems C19_reduced_* are about [reduce_af] / [EquivalencyComputer::new] /
+   [init_to_reduced_arg]: the reduced framework is a store of Model/Store.v (the model of
+   AAFramework of C12); [lab i] is the label of the initial argument with id i, any function that
+   is injective on 0..n-1 (labels of a framework are distinct; the driver uses [S], the ICCMA
+   numbering).  What the Rust code builds, and what is stated:
+   - one reduced argument per class, in class order, id = class index, label = label of the FIRST
+     member of the class ([EqClass::first] is [v[0]]);
+   - for every attack (a, b) of the initial framework, in iteration order, whose attacker a is NOT
+     in the GroundedDefeated class: the attack (class of a, class of b), added through [new_attack]
+     (which ignores an attack that is already there); attacks FROM the GroundedDefeated class are
+     dropped, attacks TO it are kept;
+   - no [unwrap] / [v[0]] / index of [reduce_af] and [init_to_reduced_arg] panics. *)
 From Coq Require Import List Permutation.
-From Crusta Require Import Spec.AF Model.Equiv Proofs.EncSpec Proofs.EquivBase Proofs.EquivProofs.
+From Crusta Require Import Spec.AF Model.Store Model.Equiv Proofs.EncSpec Proofs.EquivBase
+  Proofs.EquivProofs Proofs.EquivReduce.
 Import ListNotations.
 
 (* (a) soundness of the propagation, for ANY seed list *)
@@ -79,6 +94,68 @@ Theorem C19_computer_fields : forall lab F e, equivalency_new lab F = Done e ->
   forall r, reduced_arg_to_init_args e r = option_map members (nth_error (e_classes e) r).
 Proof. exact EquivProofs.computer_fields. Qed.
 
+(* reduce_af never panics on the classes of a compact framework (no class is empty, so [v[0]] is
+   safe; the labels given to [new_attack] are labels of the reduced framework, so its [unwrap] is
+   safe), and the id map it returns is the one characterised by C19_maps *)
+Theorem C19_reduced_total : forall lab F n cls, compact_af F n ->
+  (forall a b, a < n -> b < n -> lab a = lab b -> a = b) ->
+  compute_classes F = Done cls ->
+  exists f, reduce_af lab F cls = Done (f, init_to_reduced_ids (length (args F)) cls).
+Proof. exact EquivReduce.reduce_total. Qed.
+
+(* hence EquivalencyComputer::new never panics on a compact framework *)
+Theorem C19_reduced_new_total : forall lab F n, compact_af F n ->
+  (forall a b, a < n -> b < n -> lab a = lab b -> a = b) ->
+  exists e, equivalency_new lab F = Done e.
+Proof. exact EquivReduce.equivalency_new_total. Qed.
+
+(* the arguments of the reduced framework: [fs] lists the first member of every class, in class
+   order; the reduced arguments are, in id order, (0, lab fs_0), (1, lab fs_1), ...: one per class,
+   id = class index.  The reduced store is moreover reachable from [new_with_labels] by update
+   operations, so that every theorem of C12 applies to it. *)
+Theorem C19_reduced_args : forall lab F n cls f i2r, compact_af F n ->
+  (forall a b, a < n -> b < n -> lab a = lab b -> a = b) ->
+  compute_classes F = Done cls -> reduce_af lab F cls = Done (f, i2r) ->
+  exists fs, Forall2 (fun c a => hd_error (members c) = Some a) cls fs /\
+    iter_args nat f = combine (seq 0 (length cls)) (map lab fs) /\
+    n_arguments nat f = length cls /\
+    exists os, f = run_ops nat Nat.eqb (fw_new_with_labels nat Nat.eqb (map lab fs)) os.
+Proof. exact EquivReduce.reduced_args. Qed.
+
+(* the attacks of the reduced framework, exactly (with their order): [reduced_atts F cls] folds
+   [red_step] over the attacks of F in iteration order; [red_step] maps an attack (a, b) to
+   (class index of a, class index of b), drops it when the class of a is GroundedDefeated or when
+   the pair is already in the list, and appends it otherwise *)
+Theorem C19_reduced_attacks_exact : forall lab F n cls f i2r, compact_af F n ->
+  (forall a b, a < n -> b < n -> lab a = lab b -> a = b) ->
+  compute_classes F = Done cls -> reduce_af lab F cls = Done (f, i2r) ->
+  iter_attacks nat f = reduced_atts F cls.
+Proof. exact EquivReduce.reduced_attacks_exact. Qed.
+
+(* ... and as a set: no attack is listed twice, and (r1, r2) is an attack of the reduced framework
+   iff class r1 is not the GroundedDefeated class and some member of class r1 attacks some member
+   of class r2 in F *)
+Theorem C19_reduced_attacks : forall lab F n cls f i2r, compact_af F n ->
+  (forall a b, a < n -> b < n -> lab a = lab b -> a = b) ->
+  compute_classes F = Done cls -> reduce_af lab F cls = Done (f, i2r) ->
+  NoDup (iter_attacks nat f) /\
+  forall r1 r2, In (r1, r2) (iter_attacks nat f) <->
+    exists c1 c2 a b, nth_error cls r1 = Some c1 /\ nth_error cls r2 = Some c2 /\
+      is_defeated_class c1 = false /\ In a (members c1) /\ In b (members c2) /\ att F a b.
+Proof. exact EquivReduce.reduced_attacks. Qed.
+
+(* init_to_reduced_arg never panics on an argument of F and agrees with the id-level map of
+   C19_maps: for the argument with id a it returns the reduced argument whose id is the index of the
+   class c of a and whose label is the label of the first member of c *)
+Theorem C19_reduced_init_to_reduced_arg : forall lab F n e, compact_af F n ->
+  (forall a b, a < n -> b < n -> lab a = lab b -> a = b) ->
+  equivalency_new lab F = Done e ->
+  forall a, a < n ->
+    exists c a0, nth_error (e_classes e) (init_to_reduced F (e_classes e) a) = Some c /\
+      In a (members c) /\ hd_error (members c) = Some a0 /\
+      init_to_reduced_arg F e a = Some (init_to_reduced F (e_classes e) a, lab a0).
+Proof. exact EquivReduce.init_to_reduced_arg_spec. Qed.
+
 (* the hypotheses are satisfiable and the classes are not trivial: the 4-ring of the unit tests *)
 Example C19_example :
   compact_af (compact 4 [(0,1);(1,2);(2,3);(3,0)]) 4 /\
@@ -88,6 +165,31 @@ Proof.
   intros a b H. cbn in H. repeat (destruct H as [H|H]; [inversion H; subst; split; repeat constructor|]).
   destruct H.
 Qed.
+
+(* the reduced framework of the 4-ring (labels 1..4): two arguments 0 and 1 labelled 1 and 2 (the
+   labels of the initial arguments 0 and 1), attacking each other *)
+Example C19_reduced_example :
+  match equivalency_new S (compact 4 [(0,1);(1,2);(2,3);(3,0)]) with
+  | Done e =>
+      iter_args nat (e_reduced e) = [(0,1);(1,2)] /\
+      iter_attacks nat (e_reduced e) = [(0,1);(1,0)] /\
+      e_i2r e = [0;1;0;1] /\
+      map (init_to_reduced_arg (compact 4 [(0,1);(1,2);(2,3);(3,0)]) e) [0;1;2;3] =
+        [Some (0,1); Some (1,2); Some (0,1); Some (1,2)]
+  | _ => False
+  end.
+Proof. vm_compute. repeat split. Qed.
+
+(* a grounded part: 0 -> 1 -> 2 plus the ring 2 -> 3 -> 4 -> 2: the attack from the
+   GroundedDefeated class {1} to 2 is dropped, the attack to it is kept *)
+Example C19_reduced_example_grounded :
+  match equivalency_new S (compact 5 [(0,1);(1,2);(2,3);(3,4);(4,2)]) with
+  | Done e =>
+      e_classes e = [Grounded [0]; GroundedDefeated [1]; NotGrounded [2]; NotGrounded [3]; NotGrounded [4]] /\
+      iter_attacks nat (e_reduced e) = [(0,1);(2,3);(3,4);(4,2)]
+  | _ => False
+  end.
+Proof. vm_compute. repeat split. Qed.
 
 Print Assumptions C19_propagate_sound.
 Print Assumptions C19_propagate_conflict.
@@ -99,3 +201,9 @@ Print Assumptions C19_grounded_classes.
 Print Assumptions C19_grounded_exact.
 Print Assumptions C19_maps.
 Print Assumptions C19_computer_fields.
+Print Assumptions C19_reduced_total.
+Print Assumptions C19_reduced_new_total.
+Print Assumptions C19_reduced_args.
+Print Assumptions C19_reduced_attacks_exact.
+Print Assumptions C19_reduced_attacks.
+Print Assumptions C19_reduced_init_to_reduced_arg.
